@@ -4,7 +4,8 @@
          duration", alerts/template "template syntax error");
     (ii) Model.PromLoader.prom_accepts                              vs  rulefmt.Parse(content, false) == no error.
     Oracle bits of a scalar (n_ann): 0 metric 1 lname 2 lvalue 3 dur 4 expr 5 str-decodes 6 int-decodes
-    7 pint template ok 8 prometheus template ok 9 duration is zero. *)
+    7 pint template ok 8 prometheus template ok 9 duration is zero.
+    (iii) glue: the masking reader is the identity on the case's bytes (c_reader_id), cf. Proofs/C01_mask.v. *)
 From Coq Require Import List String Ascii Arith Bool NArith.
 From PintV Require Import Common.Bytes Model.Yaml Model.YamlPosLines Model.Parser Model.Routing Model.PromLoader Run.C19.
 Import ListNotations.
@@ -12,6 +13,8 @@ Open Scope string_scope.
 
 Record case := {
   c_base : C19.case;
+  c_reader_id : bool;               (* observed: the masking ContentReader delivered exactly the file's bytes (glue mask_id; files with
+                                       pint control comments are not cases) *)
   c_pint_blocked : option bool;     (* observed: some Bug/Fatal problem of a modelled reporter (strict, in-process); None = not comparable *)
   c_prom_accepts : option bool      (* observed: rulefmt.Parse returned no error; None = outside the modelled fragment *)
 }.
@@ -43,7 +46,11 @@ Definition hyp_empty_ok (tbl : list (string * N)) : bool :=
   | None => true
   end.
 
+Definition empty_case (id : N) : C19.case :=
+  {| c_id := id; c_thanos := false; c_lines := []; c_docs := []; c_yerr := None; c_strict := None; c_relaxed := None |}.
+
 Definition check (c : case) : list string :=
+  (if c_reader_id c then [] else ["reader-not-identity"]) ++
   (if hyp_tmpl_ok (ann_table (c_docs (c_base c))) then [] else ["hypothesis-H_tmpl"]) ++
   (if hyp_empty_ok (ann_table (c_docs (c_base c))) then [] else ["hypothesis-H_empty"]) ++
   (match c_pint_blocked c with
